@@ -167,6 +167,7 @@ func genHedgeCase(r *Rng) HCase {
 func TestDrive_C09(t *testing.T) {
 	w := NewCaseWriter(t, "C09", "FS.Corr.C09")
 	w.shardCap = envInt("VERIF_SHARD", 200)
+	w.Extra = "Definition K := Eval vm_compute in skipped_ids cases.\nPrint K.\n"
 	rng := NewRng(envSeed())
 	n := 800
 	if envTier() == "thorough" {
